@@ -27,10 +27,14 @@ echo "clean-tree demo: $clean"; echo "patched suite: $suite"; echo "patched demo
 res=""
 for c in $checks; do
   for tier in ${TIERS:-quick thorough}; do
-    out=$(cd $V && WZ_REPO=$wt timeout 3000 ./check $c --tier $tier 2>/dev/null | grep -E '^(VIOLATION|KNOWN)' | head -5); rc=$?
-    v=$(echo "$out" | grep -c '^VIOLATION')
-    echo "check $c $tier: violations=$v"; echo "$out" | grep '^VIOLATION' | head -3
+    (cd $V && WZ_REPO=$wt timeout 3000 ./check $c --tier $tier >/tmp/seedcheck.$$.out 2>/tmp/seedcheck.$$.err); rc=$?
+    v=$(grep -c '^VIOLATION' /tmp/seedcheck.$$.out)
+    echo "check $c $tier: rc=$rc violations=$v"; grep '^VIOLATION' /tmp/seedcheck.$$.out | head -3
+    [ $rc -ge 2 ] && { tail -5 /tmp/seedcheck.$$.err; v=machinery-rc$rc; }
+    rm -f /tmp/seedcheck.$$.out /tmp/seedcheck.$$.err
     res="$res$c/$tier:$v "
+    [ "$v" = "0" ] || break
+    continue
     [ "$v" -gt 0 ] && break
   done
 done
@@ -43,7 +47,7 @@ import json,sys
 m=json.load(open(sys.argv[1]))
 m["confirmed"]={"demo_on_unchanged_tree":sys.argv[3],"suite_with_patch":sys.argv[4],"demo_with_patch":sys.argv[5]}
 m["checks_run"]=sys.argv[6].split()
-m["detected"]=any(x.split(":")[1]!="0" for x in m["checks_run"])
+m["detected"]=any(x.split(":")[1].isdigit() and x.split(":")[1]!="0" for x in m["checks_run"])
 json.dump(m,open(sys.argv[2],"w"),indent=1,ensure_ascii=False)
 PY
   echo "kept seeded/$id-$k (detected: $res)"
